@@ -324,7 +324,7 @@ func newRequest(c Case) *http.Request {
 		if p.Garbage {
 			v = "abc"
 		}
-		explode := p.In == "query" || p.In == "cookie"
+		explode := (p.In == "query" || p.In == "cookie") && (p.Style == "" || p.Style == "form")
 		if p.Explode != "" {
 			explode = p.Explode == "true"
 		}
